@@ -216,6 +216,25 @@ def run(ctx: Ctx):
         texts = [ast.unparse(c).replace('"', "'") for c in cmp_]
         if not any("== assumed_base" in t or "[:-7]" in t for t in texts) and "[:-7]" not in src:
             ctx.fail(cons + "#name", ta.loc(), "the base class is not matched by the request's name without the 'Request' suffix")
+    # the command says itself which subclass carries an answer header (type_factory, what
+    # from_bytes dispatches on): to_answer asks it, so that commands registered under other names
+    # than <X> / <X>Request / <X>Answer get their answer class too (documented in
+    # docs/guide/extending_the_stack.md with SpecialMessage / SpecialRequest / SpecialAnswer)
+    cons_tf = cons + "#type-factory"
+    ctx.inst(cons_tf)
+    tf_calls = [n for n in ast.walk(ta.node) if isinstance(n, ast.Call) and (
+        (isinstance(n.func, ast.Attribute) and n.func.attr == "type_factory")
+        or (isinstance(n.func, ast.Name) and any(
+            isinstance(a_, ast.Assign) and any(isinstance(t, ast.Name) and t.id == n.func.id for t in a_.targets)
+            and "type_factory" in ast.unparse(a_.value) for a_ in ast.walk(ta.node))))]
+    if not tf_calls:
+        ctx.fail(cons_tf, ta.loc(), "to_answer pairs request and answer classes by the spelling of their "
+                 "names only: a command registered as the documentation shows (SpecialMessage / "
+                 "SpecialRequest / SpecialAnswer) is answered with a generic Message - the node's own "
+                 "answers to it are bare headers - and a request class whose name does not end in "
+                 "'Request' with another instance of itself, R bit set",
+                 expected="the class the command's type_factory names for the answer header",
+                 observed="name search only")
     no_hidden_state(ctx, "C20-R5", [ta], set())
     for gname in ("Message", "DefinedMessage", "UndefinedMessage"):
         gc = base.classes.get(gname)
